@@ -8,8 +8,11 @@
 (*   slot.ctx   param:  "plain" | "default" (p=None) | "kwonly" | "star" (star p)                  *)
 (*              ret:    "plain"                                                                *)
 (*              var:    "assign" (v = e) | "annotated" (v: T = e) | "tuple" (v, w = e) |        *)
-(*                      "multi" (v = w = e) | "reassign" (v = e; v = e) | "infunc" (local)       *)
-(*   slot.ex    existing annotation: "none" | "T"                                              *)
+(*                      "multi" (v = w = e) | "reassign" (v = e; v = e) | "infunc" (local) |     *)
+(*                      "decl" (v: X, a value-less declaration the author wrote) |               *)
+(*                      "localann" (v: X = e inside a function body)                             *)
+(*   slot.ex    existing annotation: "none" | "T" | "Any" | "Never" (the author wrote a bare      *)
+(*              Any / Never himself) | "QAny" (spelled typing.Any)                               *)
 (*   slot.st    what the stub says: "none" | "T" (the same text) | "U" (another type) | "Any" |  *)
 (*              "Never" | "triv" (int, str, ...) | "Lit" (Literal[...])                          *)
 (* table.fl     flavour of the one function that holds the param/ret slots:                    *)
@@ -24,6 +27,12 @@
 (*   - the applier looks a tuple / chained target of a class body up under its class-qualified  *)
 (*     name but emits the declaration `v: T` at module level under the bare name (Stray);       *)
 (*   - (no effect on the property) a re-assigned variable stops all later variable lookups.     *)
+(*                                                                                            *)
+(* The two filters are passes over the STUB.  What the author wrote is never filtered: an       *)
+(* existing `-> Any`, `v: Never = e` or `v: Any` stays (Kept), although NoBareAnyNever forbids   *)
+(* inserting the same text.  PostFilter is the design alternative "run the Any / Never filter    *)
+(* over the merged source as well"; it cannot tell the author's annotations from inserted ones  *)
+(* and violates Kept (design witness in MergePyi.tla, FilterMerged = TRUE).                      *)
 EXTENDS Naturals, Sequences, FiniteSets
 
 AnyNever == {"Any", "Never"}
@@ -49,10 +58,16 @@ FuncSlots(t) == {k \in DOMAIN t.slots : t.slots[k].kind \in FuncKinds}
 (* inside function bodies are never visited                                                     *)
 Applicable(t) == t.fl # "nested" /\ t.am
 
+(* the existing annotation and the stub's type are the same expression (the stub collector      *)
+(* dequalifies typing.Any to Any, so an existing typing.Any equals nothing the stub can offer)  *)
+ExAnns == {"T", "Any", "Never", "QAny"}
+SameAnn(ex, st) == ex = st /\ ex \in {"T", "Any", "Never"}
+
 (* _match_signatures with strict_annotation_matching: an existing annotation that differs from  *)
 (* the stub's leaves the whole function untouched (star parameters are not compared)            *)
 Clash(t, fst) ==
-  \E k \in FuncSlots(t) : t.slots[k].ctx # "star" /\ t.slots[k].ex = "T" /\ fst[k] \notin {"none", "T"}
+  \E k \in FuncSlots(t) :
+    t.slots[k].ctx # "star" /\ t.slots[k].ex # "none" /\ fst[k] # "none" /\ ~SameAnn(t.slots[k].ex, fst[k])
 
 (* as coded only: _annotate_single_target leaves the name of a variable that is assigned again   *)
 (* (and already annotated) on the qualifier stack; every later variable of the module is then     *)
@@ -71,6 +86,7 @@ ApplySlot(asCoded, t, fst, k) ==
   ELSE IF s.ctx \in {"tuple", "multi"} /\ s.kind = "modvar"
     THEN (IF fst[k] # "none" THEN "st" ELSE "none")    \* as a declaration `v: T` above the statement
   ELSE "none"                                          \* locals; tuple / chained targets in a class body
+                                                       \* (ctx annotated / decl / localann always have ex # "none")
 
 Merge(asCoded, t) ==
   LET fst == Filtered(asCoded, t) IN [k \in DOMAIN t.slots |-> ApplySlot(asCoded, t, fst, k)]
@@ -82,6 +98,17 @@ StraySlot(asCoded, t, fst, k) ==
   /\ ~Leak(asCoded, t, fst, k)
 Stray(asCoded, t) ==
   LET fst == Filtered(asCoded, t) IN {k \in DOMAIN t.slots : StraySlot(asCoded, t, fst, k)}
+
+(* the text a slot carries in the merged source *)
+ResText(t, res, k) ==
+  IF res[k] = "ex" THEN t.slots[k].ex ELSE IF res[k] = "st" THEN t.slots[k].st ELSE "none"
+
+(* design alternative: RemoveAnyNeverTransformer visits the merged source too (Name nodes only, *)
+(* so typing.Any survives); a value-less declaration is deleted, a return / variable loses its   *)
+(* annotation                                                                                  *)
+PostFilter(t, res) ==
+  [k \in DOMAIN res |->
+     IF t.slots[k].kind \in {"ret"} \cup VarKinds /\ ResText(t, res, k) \in AnyNever THEN "none" ELSE res[k]]
 
 -----------------------------------------------------------------------------
 (* The property, on a table and a result *)
